@@ -14,7 +14,10 @@ type genOpts struct {
 	names            []string
 	jumbo            bool
 	lowBalance       bool
+	bigCost          bool // unit costs up to 2^24 too, with volumes kept small enough for every price to fit 32 bits
 }
+
+var bigCosts = []int{1, 2, 7, 1000, 4294, 65535, 65536, 1 << 20, 1 << 24}
 
 var costs = []int{1, 1, 2, 3, 7, 10, 50, 1000}
 
@@ -22,6 +25,9 @@ func genSub(t *rapid.T, o genOpts) Sub {
 	var s Sub
 	for i := range s.Acct {
 		c := rapid.SampledFrom(costs).Draw(t, "cost")
+		if o.bigCost && rapid.Bool().Draw(t, "bigCost") {
+			c = rapid.SampledFrom(bigCosts).Draw(t, "costBig")
+		}
 		cls := []int{0, 1, 2, 3, 4, 5}
 		if o.lowBalance {
 			cls = []int{0, 1, 2, 3, 3, 3, 4, 4}
@@ -66,7 +72,34 @@ func genVolume(t *rapid.T, name string, max int32) int32 {
 	return v
 }
 
-func genUUs(t *rapid.T, o genOpts, create bool) []UU {
+// volCap is the largest volume whose price - for the used volume of an entry, summed over its (at most three)
+// containers, and for the requested volume - still fits the Unsigned32 price / monetary-quota AVPs at the
+// subscriber's dearest tariff.
+func volCap(s Sub) int32 {
+	maxCost := 1
+	for _, a := range s.Acct {
+		if a.Cost > maxCost {
+			maxCost = a.Cost
+		}
+	}
+	c := int64(1<<32-1) / int64(maxCost)
+	if c > 1_000_000 {
+		c = 1_000_000
+	}
+	if c < 1 {
+		c = 1
+	}
+	return int32(c)
+}
+
+func capVol(v, cap int32) int32 {
+	if cap > 0 && v > cap {
+		return cap
+	}
+	return v
+}
+
+func genUUs(t *rapid.T, o genOpts, create bool, cap int32) []UU {
 	n := rapid.IntRange(1, 3).Draw(t, "nUU")
 	var out []UU
 	used := map[int32]bool{}
@@ -76,7 +109,7 @@ func genUUs(t *rapid.T, o genOpts, create bool) []UU {
 			continue
 		}
 		used[rg] = true
-		u := UU{RG: rg, Req: genVolume(t, "req", 1_000_000)}
+		u := UU{RG: rg, Req: capVol(genVolume(t, "req", 1_000_000), cap)}
 		if !create {
 			nc := rapid.IntRange(1, 3).Draw(t, "nConts")
 			if o.offline && rapid.IntRange(0, 9).Draw(t, "noConts") == 0 {
@@ -91,7 +124,7 @@ func genUUs(t *rapid.T, o genOpts, create bool) []UU {
 					// shares of the last grant that together never exceed it
 					c.Pm = rapid.SampledFrom([]int{0, 1000 / nc, 1000 / nc, 500 / nc, 100 / nc, 999 / nc}).Draw(t, "pm")
 				} else {
-					c.Tot = genVolume(t, "tot", 700_000)
+					c.Tot = capVol(genVolume(t, "tot", 700_000), cap/3)
 				}
 				c.Up = int32(rapid.IntRange(0, 5000).Draw(t, "up"))
 				c.Down = int32(rapid.IntRange(0, 5000).Draw(t, "down"))
@@ -135,18 +168,18 @@ func genHist(t *rapid.T, o genOpts) Hist {
 		op := Op{K: k, S: s}
 		switch k {
 		case "create":
-			op.UUs = genUUs(t, o, true)
+			op.UUs = genUUs(t, o, true, volCap(hst.Subs[s]))
 			op.Name = rapid.SampledFrom(names).Draw(t, "name")
 			op.Plmn = rapid.Bool().Draw(t, "plmn")
 			op.Addr = rapid.Bool().Draw(t, "addr")
 			liveCount[s]++
 		case "update":
 			op.Sess = rapid.IntRange(0, 2).Draw(t, "sess")
-			op.UUs = genUUs(t, o, false)
+			op.UUs = genUUs(t, o, false, volCap(hst.Subs[s]))
 			op.Trig = rapid.SampledFrom([]string{"", "", "", "", "", "FINAL", "VOLUME_LIMIT", "MAX_CHANGES", "MGMT", "QUOTA_THRESHOLD"}).Draw(t, "trig")
 		case "release":
 			op.Sess = rapid.IntRange(0, 2).Draw(t, "sess")
-			op.UUs = genUUs(t, o, false)
+			op.UUs = genUUs(t, o, false, volCap(hst.Subs[s]))
 			op.Trig = rapid.SampledFrom([]string{"FINAL", "FINAL", "FINAL", ""}).Draw(t, "trig")
 			liveCount[s]--
 		case "recharge":
